@@ -1,12 +1,12 @@
 #!/bin/bash
-# run every claimed property's thorough tier once (used with `vp run`); prints one line per property
+# tools/run_thorough.sh Cxx ... : run the thorough tier of the named properties once (used with `vp run`)
 cd "$(dirname "$0")/.."
-./setup.sh > /dev/null 2>&1 || { echo SETUP FAILED; exit 1; }
-for p in $(python3 -c "import json;print(' '.join(json.load(open('tools/claimed.json'))))"); do
+./setup.sh > setup.out 2>&1 || { echo SETUP FAILED; tail -5 setup.out; exit 1; }
+for p in "$@"; do
   t0=$(date +%s)
   VERIF_EVIDENCE_DIR=$PWD/evidence_thorough ./check $p --tier thorough > thorough_$p.out 2>&1
   rc=$?
   echo "$p thorough rc=$rc $(( $(date +%s) - t0 ))s $(grep -c '^VIOLATION' thorough_$p.out) violations $(grep -c '^KNOWN-FINDING' thorough_$p.out) known"
-  grep '^VIOLATION' -A1 thorough_$p.out | head -6
+  grep '^VIOLATION' -A1 thorough_$p.out | cut -c1-400 | head -6
 done
 echo ALL DONE
